@@ -9,11 +9,25 @@
   (C01: every value the constructors return has this form); its month and day are `monthOfYo y o`,
   `dayOfYo y o` (C01 `accessors_ok`).  `u32` arguments are natural numbers: every theorem below holds
   for EVERY natural argument, in particular for all of `0 ..= u32::MAX`.
+
+  Second half (date-time forms; helper lemmas: Proofs/DateTimeOpsL.lean on top of C07's Proofs/TimeL.lean
+  and C04's Proofs/Zoned*.lean; models: Model/Time.lean, Model/ZonedOps.lean, Model/DateTime.lean,
+  Model/DateTimeOps.lean; vocabulary: Spec/DateTimeOpsSpec.lean, Spec/ZonedSpec.lean):
+    `TValid t`         a well-formed time of day: `secs < 86400`, `frac < 2·10⁹` (leap representation
+                       `frac ≥ 10⁹` on any second, as `with_nanosecond` can build it);
+    `HasFields t' h m s n`  `t'` is well formed and shows hour `h`, minute `m`, second `s`, nanosecond `n`;
+    `ZInv z`           a well-formed `DateTime<FixedOffset>` (`DateTime<Utc>`: offset 0): UTC reading in
+                       range, |offset| < 86400;  `wallSecs z` = instant + offset;
+    `ExtNDTInv l`      a reading of the calendar extended by one year at each end (a wall clock can lie
+                       up to a day outside the range);
+    `ActsOnWall z r0 r`  `r` is the value at `z`'s offset whose wall clock is the naive result `r0`, kept
+                       only inside `MIN_UTC ..= MAX_UTC` (`ActsOnWallWith ok`: another filter).
 -/
-import Chrono.Proofs.DateOpsL
+import Chrono.Proofs.DateTimeOpsL
 
 namespace Chrono.Props.C08
-open Chrono Chrono.M Chrono.Spec Chrono.Proofs Chrono.Extracted Chrono.Extracted.DateOps
+open Chrono Chrono.M Chrono.Spec Chrono.Proofs Chrono.Proofs.ZN Chrono.Proofs.DTO Chrono.Extracted
+  Chrono.Extracted.DateOps
 
 /-! ### data re-extracted from the source on this run -/
 
@@ -338,6 +352,213 @@ theorem calendar_accessors (y : Int) (o : Nat) (hy : MIN_YEAR ≤ y ∧ y ≤ MA
   exact ⟨quarter_spec y o ho, year_ce_spec y o hy (by omega), num_days_in_month_spec y o hy ho,
     month_num_days_spec mo y'⟩
 
+/-! ## Date-time forms -/
+
+/-! ### time-of-day replacement (`NaiveTime`) -/
+
+/-- `with_hour / with_minute / with_second / with_nanosecond`, every well-formed time of day (leap
+representation on any second) and EVERY `u32` (indeed every non-negative) argument: `None` exactly when
+hour ≥ 24 / minute ≥ 60 / second ≥ 60 / nanosecond ≥ 2·10⁹; otherwise the result is a well-formed time
+that shows the new value in the named field and the old values in the three others (`with_hour`,
+`with_minute`, `with_second` keep the nanosecond field and with it a leap-second representation;
+`with_nanosecond` accepts the leap range 10⁹ ..< 2·10⁹ on any second, as the code does) -/
+theorem time_with_field_spec (t : Time) (v : Int) (ht : TValid t) (hv : 0 ≤ v) :
+    ((t.with_hour v = none ↔ 24 ≤ v) ∧
+      ∀ t', t.with_hour v = some t' → HasFields t' v t.minute t.second t.nanosecond) ∧
+    ((t.with_minute v = none ↔ 60 ≤ v) ∧
+      ∀ t', t.with_minute v = some t' → HasFields t' t.hour v t.second t.nanosecond) ∧
+    ((t.with_second v = none ↔ 60 ≤ v) ∧
+      ∀ t', t.with_second v = some t' → HasFields t' t.hour t.minute v t.nanosecond) ∧
+    ((t.with_nanosecond v = none ↔ 2000000000 ≤ v) ∧
+      ∀ t', t.with_nanosecond v = some t' → HasFields t' t.hour t.minute t.second v) := by
+  obtain ⟨⟨a1, a2⟩, ⟨b1, b2⟩, ⟨c1, c2⟩, ⟨d1, d2⟩⟩ := time_with_fields t v ht hv
+  exact ⟨⟨a1, a2⟩, ⟨b1, b2⟩, ⟨c1, c2⟩, ⟨d1, d2⟩⟩
+
+/-- a well-formed time of day is determined by the four fields it shows, so `time_with_field_spec`
+names *the* result; and the fields of a well-formed time are in range and compose `secs` -/
+theorem time_fields_unique (a b : Time) (ha : TValid a) (hb : TValid b) :
+    (a.hour = b.hour → a.minute = b.minute → a.second = b.second → a.nanosecond = b.nanosecond → a = b) ∧
+    (0 ≤ a.hour ∧ a.hour < 24 ∧ 0 ≤ a.minute ∧ a.minute < 60 ∧ 0 ≤ a.second ∧ a.second < 60 ∧
+      a.hour * 3600 + a.minute * 60 + a.second = a.secs ∧ a.nanosecond = a.frac) := by
+  refine ⟨time_unique a b ha hb, ?_⟩
+  obtain ⟨a1, a2, a3, a4, b1, b2, b3, b4, b5, b6, b7, _⟩ := accessors' a ha
+  rw [a1, a2, a3, a4]
+  exact ⟨b1, b2, b3, b4, b5, b6, b7, rfl⟩
+
+/-! ### `NaiveDateTime` forms -/
+
+/-- `NaiveDateTime`'s month stepping and eleven field replacements, EVERY naive date-time and every
+argument: the date-level operation on the date part with the time of day kept, resp. the time-level
+operation on the time part with the date kept (`None` / panic exactly as the part's operation) -/
+theorem naive_datetime_delegates (dt : NaiveDT) (v k : Nat) (y' w : Int) :
+    let keepTime : Res (Option Date) → Res (Option NaiveDT) :=
+      fun r => r.bind fun o => .ok (o.map fun d => ⟨d, dt.time⟩)
+    let keepDate : Option Time → Res (Option NaiveDT) := fun o => .ok (o.map fun t => ⟨dt.date, t⟩)
+    dt.checked_add_months k = keepTime (dt.date.checked_add_months k) ∧
+    dt.checked_sub_months k = keepTime (dt.date.checked_sub_months k) ∧
+    dt.with_year y' = keepTime (dt.date.with_year y') ∧
+    dt.with_month v = keepTime (dt.date.with_month v) ∧
+    dt.with_month0 v = keepTime (dt.date.with_month0 v) ∧
+    dt.with_day v = keepTime (dt.date.with_day v) ∧
+    dt.with_day0 v = keepTime (dt.date.with_day0 v) ∧
+    dt.with_ordinal v = keepTime (dt.date.with_ordinal v) ∧
+    dt.with_ordinal0 v = keepTime (dt.date.with_ordinal0 v) ∧
+    dt.with_hour w = keepDate (dt.time.with_hour w) ∧
+    dt.with_minute w = keepDate (dt.time.with_minute w) ∧
+    dt.with_second w = keepDate (dt.time.with_second w) ∧
+    dt.with_nanosecond w = keepDate (dt.time.with_nanosecond w) :=
+  ⟨rfl, rfl, rfl, rfl, rfl, rfl, rfl, rfl, rfl, rfl, rfl, rfl, rfl⟩
+
+/-- the same with the date-level meaning filled in (`months_spec`, `with_field_spec`): for every naive
+date-time whose date is a date of the range, every time of day `t` (no hypothesis on it) and every
+argument, the result is the specification's date with `t` kept; never a panic -/
+theorem naive_datetime_spec (y : Int) (o : Nat) (hy : MIN_YEAR ≤ y ∧ y ≤ MAX_YEAR) (ho : 1 ≤ o ∧ o ≤ yearLen y)
+    (t : Time) (v k : Nat) (y' : Int) :
+    let dt : NaiveDT := ⟨dateOfYo y o, t⟩
+    let at_t : Option Date → Res (Option NaiveDT) := fun r => .ok (r.map fun d => ⟨d, t⟩)
+    dt.checked_add_months k = at_t (addMonths? y (monthOfYo y o) (dayOfYo y o) k) ∧
+    dt.checked_sub_months k = at_t (addMonths? y (monthOfYo y o) (dayOfYo y o) (-(k : Int))) ∧
+    dt.with_year y' = at_t (ymdDate? y' (monthOfYo y o) (dayOfYo y o)) ∧
+    dt.with_month v = at_t (ymdDate? y v (dayOfYo y o)) ∧
+    dt.with_month0 v = at_t (ymdDate? y (v + 1) (dayOfYo y o)) ∧
+    dt.with_day v = at_t (ymdDate? y (monthOfYo y o) v) ∧
+    dt.with_day0 v = at_t (ymdDate? y (monthOfYo y o) (v + 1)) ∧
+    dt.with_ordinal v = at_t (yoDate? y v) ∧
+    dt.with_ordinal0 v = at_t (yoDate? y (v + 1)) := by
+  obtain ⟨m1, m2⟩ := months_spec y o hy ho k
+  obtain ⟨w1, w2, w3, w4, w5, w6, w7⟩ := with_field_spec y o hy ho v y'
+  dsimp only
+  refine ⟨?_, ?_, ?_, ?_, ?_, ?_, ?_, ?_, ?_⟩
+  · unfold NaiveDT.checked_add_months NaiveDT.mapDate; dsimp only; rw [m1]; rfl
+  · unfold NaiveDT.checked_sub_months NaiveDT.mapDate; dsimp only; rw [m2]; rfl
+  · unfold NaiveDT.with_year NaiveDT.mapDate; dsimp only; rw [w1]; rfl
+  · unfold NaiveDT.with_month NaiveDT.mapDate; dsimp only; rw [w2]; rfl
+  · unfold NaiveDT.with_month0 NaiveDT.mapDate; dsimp only; rw [w3]; rfl
+  · unfold NaiveDT.with_day NaiveDT.mapDate; dsimp only; rw [w4]; rfl
+  · unfold NaiveDT.with_day0 NaiveDT.mapDate; dsimp only; rw [w5]; rfl
+  · unfold NaiveDT.with_ordinal NaiveDT.mapDate; dsimp only; rw [w6]; rfl
+  · unfold NaiveDT.with_ordinal0 NaiveDT.mapDate; dsimp only; rw [w7]; rfl
+
+/-! ### zone-aware forms (`DateTime<FixedOffset>`; `DateTime<Utc>` is offset 0) -/
+
+/-- `DateTime::with_year` is `map_local` with a closure that short-cuts an unchanged year -/
+theorem zoned_with_year_closure (z : Zoned) (y : Int) :
+    Zoned.with_year z y = Zoned.map_local z (withYearLocal y) := rfl
+
+/-- **Every zone-aware form is the naive form applied to the wall clock.**  For every well-formed
+zone-aware value `z` (any offset of less than a day, sub-minute ones included) let `l` be its wall clock
+(`overflowing_naive_local`; never a panic; `instant + offset`; possibly in a headroom day at a range
+end).  Then for every argument:
+
+* each of the eleven replacements `with_year/month/month0/day/day0/ordinal/ordinal0/hour/minute/second/
+  nanosecond`: `NaiveDateTime`'s operation applied to `l` returns some `r0` without panicking (for
+  `with_year` the closure `withYearLocal`, which keeps `l` when the year is unchanged), the zone-aware
+  operation returns some `r` without panicking, and `ActsOnWall z r0 r`: a result has `z`'s offset, is
+  well formed, lies in `MIN_UTC ..= MAX_UTC`, denotes the instant `r0 − offset`, and its wall clock IS
+  `r0`; there is no result exactly when the naive operation refuses (`r0 = none`) or the instant
+  `r0 − offset` is outside `MIN_UTC ..= MAX_UTC` (which includes a leap-second reading in the last
+  second of `MAX_UTC`);
+* `checked_add_months / checked_sub_months` (every `u32`, indeed every natural count; `Months(0)`
+  returns the value itself): the same with the filter "the UTC reading `r0 − offset` is representable"
+  (`InRangeSecs`) — this operation does not go through `map_local` and applies no `MIN_UTC ..= MAX_UTC`
+  filter (so a leap-second reading in the very last second passes).
+
+When the wall clock is inside the range, `l` is `⟨dateOfYo y o, l.time⟩` for a date of the range, so
+`naive_datetime_spec` / `time_with_field_spec` say what `r0` is. -/
+theorem zoned_ops_spec (z : Zoned) (hz : ZInv z) (v k : Nat) (y' w : Int) (hw : 0 ≤ w) :
+    ∃ l, Zoned.overflowing_naive_local z = .ok l ∧ ExtNDTInv l ∧ instSecs l = wallSecs z ∧
+      l.time.frac = z.utc.time.frac ∧
+      (InRangeSecs (wallSecs z) → ∃ y o, (MIN_YEAR ≤ y ∧ y ≤ MAX_YEAR) ∧ (1 ≤ o ∧ o ≤ yearLen y) ∧
+        l = ⟨dateOfYo y o, l.time⟩) ∧
+      (∃ r0 r, withYearLocal y' l = .ok r0 ∧ Zoned.with_year z y' = .ok r ∧ ActsOnWall z r0 r) ∧
+      (∃ r0 r, l.with_month v = .ok r0 ∧ Zoned.with_month z v = .ok r ∧ ActsOnWall z r0 r) ∧
+      (∃ r0 r, l.with_month0 v = .ok r0 ∧ Zoned.with_month0 z v = .ok r ∧ ActsOnWall z r0 r) ∧
+      (∃ r0 r, l.with_day v = .ok r0 ∧ Zoned.with_day z v = .ok r ∧ ActsOnWall z r0 r) ∧
+      (∃ r0 r, l.with_day0 v = .ok r0 ∧ Zoned.with_day0 z v = .ok r ∧ ActsOnWall z r0 r) ∧
+      (∃ r0 r, l.with_ordinal v = .ok r0 ∧ Zoned.with_ordinal z v = .ok r ∧ ActsOnWall z r0 r) ∧
+      (∃ r0 r, l.with_ordinal0 v = .ok r0 ∧ Zoned.with_ordinal0 z v = .ok r ∧ ActsOnWall z r0 r) ∧
+      (∃ r0 r, l.checked_add_months k = .ok r0 ∧ Zoned.checked_add_months z k = .ok r ∧
+        ActsOnWallWith (fun s _ => InRangeSecs s) z r0 r) ∧
+      (∃ r0 r, l.checked_sub_months k = .ok r0 ∧ Zoned.checked_sub_months z k = .ok r ∧
+        ActsOnWallWith (fun s _ => InRangeSecs s) z r0 r) ∧
+      (∃ r0 r, l.with_hour w = .ok r0 ∧ Zoned.with_hour z w = .ok r ∧ ActsOnWall z r0 r) ∧
+      (∃ r0 r, l.with_minute w = .ok r0 ∧ Zoned.with_minute z w = .ok r ∧ ActsOnWall z r0 r) ∧
+      (∃ r0 r, l.with_second w = .ok r0 ∧ Zoned.with_second z w = .ok r ∧ ActsOnWall z r0 r) ∧
+      (∃ r0 r, l.with_nanosecond w = .ok r0 ∧ Zoned.with_nanosecond z w = .ok r ∧ ActsOnWall z r0 r) := by
+  obtain ⟨l, h1, h2, h3, h4, _, h6⟩ := naive_local_spec z hz
+  obtain ⟨d1, d2, d3, d4, d5, d6, d7, d8, d9⟩ := zoned_date_ops z hz l h1 v k y'
+  obtain ⟨t1, t2, t3, t4⟩ := zoned_time_ops z hz l h1 w hw
+  refine ⟨l, h1, h2, h3, h4, ?_, d1, d2, d3, d4, d5, d6, d7, d8, d9, t1, t2, t3, t4⟩
+  intro hin
+  have hd := (dateInv_iff l.date).mp (h6.mpr hin)
+  obtain ⟨el, vl⟩ := ext_eq l.date hd.1
+  refine ⟨l.date.year, l.date.ordinal.toNat, hd.2, ⟨vl.2.2.1, vl.2.2.2⟩, ?_⟩
+  rw [← el]
+
+/-- what the two filters are, in seconds since the epoch: representable = the date of the UTC reading
+lies in `NaiveDate::MIN ..= NaiveDate::MAX`; `MIN_UTC ..= MAX_UTC` = that, minus the leap-second
+readings of the very last second -/
+theorem utc_filters (s f : Int) :
+    (InRangeSecs s ↔ SECS_MIN ≤ s ∧ s ≤ SECS_MAX) ∧
+    (InUtcRange s f ↔ InRangeSecs s ∧ ¬ (s = SECS_MAX ∧ f ≥ 1000000000)) ∧
+    SECS_MIN = (dayNumYo MIN_YEAR 1 - EPOCH_DAY) * 86400 ∧
+    SECS_MAX = (dayNumYo MAX_YEAR 365 - EPOCH_DAY) * 86400 + 86399 ∧
+    instSecs NaiveDT.MIN = SECS_MIN ∧ instSecs NaiveDT.MAX = SECS_MAX :=
+  ⟨Iff.rfl, Iff.rfl, rfl, rfl, instSecs_min_max.1, instSecs_min_max.2.1⟩
+
+/-! ### whole years elapsed between two zone-aware values -/
+
+/-- `DateTime::years_since`, every pair of well-formed zone-aware values (each at its own offset): with
+`l1`, `l0` the wall clocks of `self` and `base` and (year, month, day, time of day) read from them —
+`Some k` exactly for the number `k ≥ 0` of whole years elapsed with the time of day in the comparison
+(the k-th anniversary of `base`'s wall clock — same month, day and time of day, k years later — is not
+after `self`'s wall clock, the next one is; times compare by second of day, then the nanosecond field,
+so a leap second sorts after :59.999999999); `None` exactly when `self`'s wall clock reads earlier than
+`base`'s — in fields, and equivalently in wall-clock seconds `instant + offset` then nanosecond field
+(the offsets enter: two values of the same instant at different offsets can be `None` one way);
+never a panic, no `i32` overflow -/
+theorem datetime_years_since_spec (z b : Zoned) (hz : ZInv z) (hb : ZInv b) :
+    ∃ l1 l0 r, Zoned.overflowing_naive_local z = .ok l1 ∧ Zoned.overflowing_naive_local b = .ok l0 ∧
+      Zoned.time z = .ok l1.time ∧ Zoned.time b = .ok l0.time ∧
+      Zoned.month z = .ok (monthOfYo l1.date.year l1.date.ordinal.toNat) ∧
+      Zoned.day z = .ok (dayOfYo l1.date.year l1.date.ordinal.toNat) ∧
+      Zoned.month b = .ok (monthOfYo l0.date.year l0.date.ordinal.toNat) ∧
+      Zoned.day b = .ok (dayOfYo l0.date.year l0.date.ordinal.toNat) ∧
+      Zoned.years_since z b = .ok r ∧
+      (∀ k, r = some k ↔
+        WholeYearsT l0.date.year (monthOfYo l0.date.year l0.date.ordinal.toNat)
+          (dayOfYo l0.date.year l0.date.ordinal.toNat) l0.time
+          l1.date.year (monthOfYo l1.date.year l1.date.ordinal.toNat)
+          (dayOfYo l1.date.year l1.date.ordinal.toNat) l1.time k) ∧
+      (r = none ↔
+        ymdtLt l1.date.year (monthOfYo l1.date.year l1.date.ordinal.toNat)
+          (dayOfYo l1.date.year l1.date.ordinal.toNat) l1.time
+          l0.date.year (monthOfYo l0.date.year l0.date.ordinal.toNat)
+          (dayOfYo l0.date.year l0.date.ordinal.toNat) l0.time) ∧
+      (r = none ↔ (wallSecs z < wallSecs b ∨
+        (wallSecs z = wallSecs b ∧ z.utc.time.frac < b.utc.time.frac))) := by
+  obtain ⟨l1, a1, a2, a3, a4, _⟩ := naive_local_spec z hz
+  obtain ⟨l0, b1, b2, b3, b4, _⟩ := naive_local_spec b hb
+  obtain ⟨e1, v1⟩ := ext_eq l1.date a2.1
+  obtain ⟨e0, v0⟩ := ext_eq l0.date b2.1
+  obtain ⟨ma, da, _, _⟩ := month_day_spec l1.date.year l1.date.ordinal.toNat v1.2.2.1 v1.2.2.2
+  obtain ⟨mb, db, _, _⟩ := month_day_spec l0.date.year l0.date.ordinal.toNat v0.2.2.1 v0.2.2.2
+  rw [← e1] at ma da
+  rw [← e0] at mb db
+  have hy := zoned_years_since_eq z b hz hb l1 l0 a1 b1
+  have ka := years_arith l1.date.year l0.date.year (monthOfYo l1.date.year l1.date.ordinal.toNat)
+    (dayOfYo l1.date.year l1.date.ordinal.toNat) (monthOfYo l0.date.year l0.date.ordinal.toNat)
+    (dayOfYo l0.date.year l0.date.ordinal.toNat) l1.time l0.time
+  have hw := ymdt_wall l1 l0 a2 b2
+  rw [a3, b3, a4, b4] at hw
+  refine ⟨l1, l0, _, a1, b1, zoned_time_eq z l1 a1, zoned_time_eq b l0 b1, ?_, ?_, ?_, ?_, hy,
+    fun k => (ka k).1, (ka 0).2, ?_⟩
+  · unfold Zoned.month; rw [a1]; exact ma
+  · unfold Zoned.day; rw [a1]; exact da
+  · unfold Zoned.month; rw [b1]; exact mb
+  · unfold Zoned.day; rw [b1]; exact db
+  · exact (ka 0).2.trans hw
+
 /-! ### non-vacuity: the hypotheses are met, and the interesting branches are reached -/
 
 /-- Jan 31 + 1 month clamps to Feb 29 in a leap year and Feb 28 otherwise; December rolls the year;
@@ -398,5 +619,72 @@ example :
     (dateOfYo 0 1).year_ce = .ok (false, 1) ∧ (dateOfYo 2024 32).num_days_in_month = .ok 29 ∧
     Month.feb.num_days 262143 = .ok none ∧ Month.jan.num_days 262143 = .ok (some 31) := by
   decide +kernel
+
+/-- time-of-day replacement: `with_second(59)` / `with_minute(0)` on a leap-second representation keep
+it; the bounds; `with_nanosecond` builds a leap representation on any second -/
+example :
+    TValid ⟨3570, 1500000000⟩ ∧
+    (⟨3570, 1500000000⟩ : Time).with_second 59 = some ⟨3599, 1500000000⟩ ∧
+    (⟨3599, 1500000000⟩ : Time).with_minute 0 = some ⟨59, 1500000000⟩ ∧
+    (⟨3599, 1500000000⟩ : Time).with_hour 23 = some ⟨86399, 1500000000⟩ ∧
+    (⟨3599, 1500000000⟩ : Time).with_hour 24 = none ∧ (⟨0, 0⟩ : Time).with_second 60 = none ∧
+    (⟨0, 0⟩ : Time).with_minute 4294967295 = none ∧
+    (⟨7, 0⟩ : Time).with_nanosecond 1999999999 = some ⟨7, 1999999999⟩ ∧
+    (⟨7, 0⟩ : Time).with_nanosecond 2000000000 = none ∧
+    HasFields ⟨3599, 1500000000⟩ 0 59 59 1500000000 := by decide
+
+/-- `NaiveDateTime`: Jan 31 + 1 month keeps the time (leap representation included); `with_day(31)` in
+February has no target; `with_hour` keeps the date -/
+example :
+    NaiveDT.checked_add_months ⟨dateOfYo 2024 31, ⟨86399, 1500000000⟩⟩ 1 =
+      .ok (some ⟨dateOfYo 2024 60, ⟨86399, 1500000000⟩⟩) ∧
+    NaiveDT.checked_sub_months ⟨dateOfYo 2024 91, ⟨5, 6⟩⟩ 1 = .ok (some ⟨dateOfYo 2024 60, ⟨5, 6⟩⟩) ∧
+    NaiveDT.with_day ⟨dateOfYo 2024 32, ⟨5, 6⟩⟩ 31 = .ok none ∧
+    NaiveDT.with_year ⟨dateOfYo 2024 60, ⟨5, 6⟩⟩ 2023 = .ok none ∧
+    NaiveDT.with_ordinal0 ⟨dateOfYo 2024 60, ⟨5, 6⟩⟩ 365 = .ok (some ⟨dateOfYo 2024 366, ⟨5, 6⟩⟩) ∧
+    NaiveDT.with_hour ⟨dateOfYo 2024 60, ⟨5, 6⟩⟩ 23 = .ok (some ⟨dateOfYo 2024 60, ⟨82805, 6⟩⟩) ∧
+    NaiveDT.with_hour ⟨dateOfYo 2024 60, ⟨5, 6⟩⟩ 24 = .ok none := by decide +kernel
+
+/-- zone-aware forms at the sub-minute offset +00:00:17: 2024-01-31T23:59:50Z reads Feb 1 00:00:07 on
+the wall, plus one month is Mar 1 00:00:07 = Feb 29 23:59:50Z; at noon the wall clock reads Jan 31 and
+clamps to Feb 29; `with_second(30)` acts on the wall clock (:16 wall → :30 wall = :13 UTC), not on the
+UTC reading, and keeps a leap-second representation; a replacement whose naive result exists but whose
+instant leaves the range (`with_day(31)` on Dec 30 21:30 at −03:00 = Jan 1 00:30Z of the year after
+MAX) is refused; a leap-second reading in the last second of MAX_UTC is refused by `with_nanosecond`
+(through `map_local`) but not by month stepping (no `MIN_UTC ..= MAX_UTC` filter there) -/
+example :
+    ZInv ⟨⟨dateOfYo 2024 31, ⟨86390, 0⟩⟩, 17⟩ ∧
+    Zoned.overflowing_naive_local ⟨⟨dateOfYo 2024 31, ⟨86390, 0⟩⟩, 17⟩ = .ok ⟨dateOfYo 2024 32, ⟨7, 0⟩⟩ ∧
+    NaiveDT.checked_add_months ⟨dateOfYo 2024 32, ⟨7, 0⟩⟩ 1 = .ok (some ⟨dateOfYo 2024 61, ⟨7, 0⟩⟩) ∧
+    Zoned.checked_add_months ⟨⟨dateOfYo 2024 31, ⟨86390, 0⟩⟩, 17⟩ 1 =
+      .ok (some ⟨⟨dateOfYo 2024 60, ⟨86390, 0⟩⟩, 17⟩) ∧
+    Zoned.checked_add_months ⟨⟨dateOfYo 2024 31, ⟨43200, 0⟩⟩, 17⟩ 1 =
+      .ok (some ⟨⟨dateOfYo 2024 60, ⟨43200, 0⟩⟩, 17⟩) ∧
+    Zoned.with_second ⟨⟨dateOfYo 2016 366, ⟨86399, 1500000000⟩⟩, 17⟩ 30 =
+      .ok (some ⟨⟨dateOfYo 2017 1, ⟨13, 1500000000⟩⟩, 17⟩) ∧
+    Zoned.with_second ⟨⟨dateOfYo 2016 366, ⟨86399, 1500000000⟩⟩, 17⟩ 60 = .ok none ∧
+    NaiveDT.with_day ⟨dateOfYo MAX_YEAR 364, ⟨77400, 0⟩⟩ 31 = .ok (some ⟨dateOfYo MAX_YEAR 365, ⟨77400, 0⟩⟩) ∧
+    Zoned.with_day ⟨⟨dateOfYo MAX_YEAR 365, ⟨1800, 0⟩⟩, -10800⟩ 31 = .ok none ∧
+    NaiveDT.with_nanosecond NaiveDT.MAX 1000000000 = .ok (some ⟨Date.MAX, ⟨86399, 1000000000⟩⟩) ∧
+    Zoned.with_nanosecond ⟨NaiveDT.MAX, 0⟩ 1000000000 = .ok none ∧
+    ¬ InUtcRange (instSecs ⟨Date.MAX, ⟨86399, 1000000000⟩⟩ - 0) 1000000000 ∧
+    Zoned.checked_add_months ⟨⟨dateOfYo MAX_YEAR 304, ⟨86399, 1500000000⟩⟩, 0⟩ 2 =
+      .ok (some ⟨⟨Date.MAX, ⟨86399, 1500000000⟩⟩, 0⟩) ∧
+    Zoned.checked_add_months ⟨⟨dateOfYo MAX_YEAR 335, ⟨0, 0⟩⟩, 0⟩ 1 = .ok none := by decide +kernel
+
+/-- whole years between zone-aware values: one nanosecond before the anniversary, on it; a leap second
+sorts after :59.999999999; the wall clocks decide — the same instant at +00:00:01 and at +00:00:00 is
+`None` one way and `Some(0)` the other; the widest pair -/
+example :
+    Zoned.years_since ⟨⟨dateOfYo 2024 60, ⟨43200, 0⟩⟩, 0⟩ ⟨⟨dateOfYo 2000 60, ⟨43200, 1⟩⟩, 0⟩ = .ok (some 23) ∧
+    Zoned.years_since ⟨⟨dateOfYo 2024 60, ⟨43200, 0⟩⟩, 0⟩ ⟨⟨dateOfYo 2000 60, ⟨43200, 0⟩⟩, 0⟩ = .ok (some 24) ∧
+    Zoned.years_since ⟨⟨dateOfYo 2017 365, ⟨86399, 1000000000⟩⟩, 0⟩ ⟨⟨dateOfYo 2016 366, ⟨86399, 999999999⟩⟩, 0⟩
+      = .ok (some 1) ∧
+    Zoned.years_since ⟨⟨dateOfYo 2017 365, ⟨86399, 999999999⟩⟩, 0⟩ ⟨⟨dateOfYo 2016 366, ⟨86399, 1000000000⟩⟩, 0⟩
+      = .ok (some 0) ∧
+    Zoned.years_since ⟨⟨dateOfYo 2024 60, ⟨43200, 0⟩⟩, 0⟩ ⟨⟨dateOfYo 2024 60, ⟨43200, 0⟩⟩, 1⟩ = .ok none ∧
+    Zoned.years_since ⟨⟨dateOfYo 2024 60, ⟨43200, 0⟩⟩, 1⟩ ⟨⟨dateOfYo 2024 60, ⟨43200, 0⟩⟩, 0⟩ = .ok (some 0) ∧
+    Zoned.years_since ⟨NaiveDT.MAX, 86399⟩ ⟨NaiveDT.MIN, -86399⟩ = .ok (some 524286) ∧
+    Zoned.time ⟨⟨dateOfYo 2024 60, ⟨86390, 5⟩⟩, 17⟩ = .ok ⟨7, 5⟩ := by decide +kernel
 
 end Chrono.Props.C08
